@@ -114,6 +114,34 @@ def _c14(tier):
 CHECKS["C14"] = _c14
 
 
+def _c19(tier):
+    t0 = time.time()
+    res = Results("C19")
+    jobs = []
+    for cfg in ["repo", "O2"]:
+        li = build.build_lib(cfg)
+        exe = build.build_harness(li, "ct", ["ct.c"])
+        base = ["--prop", "C19", "--tier", tier, "--seed", str(seed()), "--cfg", cfg]
+        jobs.append(("ct/result/" + cfg, [exe, "--mode", "result"] + base))
+        jobs.append(("ct/taint/" + cfg, ["valgrind", "-q", "--error-limit=no", "--log-file=/dev/null", exe, "--mode", "taint"] + base))
+    run_workers(jobs, res)
+    ctrl, fired = res.counters.get("control_calls", 0), res.counters.get("control_fired", 0)
+    res.evaluations = res.counters.get("calls", 0) + res.counters.get("tainted_calls", 0)
+    floor_ok = ctrl > 0 and fired == ctrl and res.counters.get("tainted_calls", 0) > 0
+    return finish(res, tier, "exploration",
+                  "result: n 0..64 x first-difference position {0, n/2, n-1} x all 256x256 byte pairs there (thorough; every third pair in quick) vs memcmp; "
+                  "taint: under valgrind memcheck both regions marked undefined for n 1..24 (quick) / 1..64 (thorough) x 6 content classes x {repo default -O0, -O2} builds, "
+                  "memcheck error-count delta per call; distinct = (mode, function, n, class/sign)", t0,
+                  extra_cov=dict(builds=["repo", "O2"], harnesses=["ct"], tainted_calls=res.counters.get("tainted_calls", 0),
+                                 positive_control=dict(naive_early_exit_calls=ctrl, raised_memcheck_errors=fired)),
+                  assumptions=["valgrind memcheck flags conditional jumps/moves and address formation on undefined data; other data-dependent timing is not observed",
+                               "gcc 12 code generation for the two builds examined"],
+                  min_evals=1000, floor_ok=floor_ok, floor_msg="positive control fired %d/%d" % (fired, ctrl))
+
+
+CHECKS["C19"] = _c19
+
+
 def _c16(tier):
     t0 = time.time()
     res = Results("C16")
